@@ -39,8 +39,9 @@ m = {
     "not_applicable": [],
     "notes": "Model-based verification with explicit TLA+ specifications (specs/), TLC for the design level, conformance of the real code by replaying TLC-generated vectors/behaviours and validating recorded traces. See DESIGN.md.",
 }
+ENABLED = set(open(os.path.join(V, "bin", "manifest.d", "ENABLED")).read().split())
 for pid in ALL:
-    if pid in CHECKS:
+    if pid in CHECKS and pid in ENABLED:
         c = CHECKS[pid]
         m["checks"].append({
             "property_id": pid,
